@@ -538,20 +538,33 @@ def failure_protocol(check, prog, root):
     it = Interp(prog, max_depth=0)
     res = it.analyze(q)
     raised = False
+
+    def is_flag(x):
+        return x[0] == 'idx' and x[2] == num(pos) and x[1][0] == 'call' and \
+            str(x[1][1]).endswith('ampld')
     for o in res.raises:
         if 'TmatrixFailure' not in show(o.value):
             continue
-        for t, pol in o.cond:
-            for x in subterms(t):
-                if x[0] == 'idx' and x[2] == num(pos) and x[1][0] == 'call' and \
-                        str(x[1][1]).endswith('ampld'):
-                    raised = True
+        # raised for *every* non-zero flag: the path condition is the flag's
+        # truth value (or `flag != 0`), nothing narrower
+        conds = [(t, pol) for t, pol in o.cond if any(is_flag(x) for x in subterms(t))]
+        others = [(t, pol) for t, pol in o.cond if (t, pol) not in conds]
+        plain = len(conds) == 1 and not others and (
+            (is_flag(conds[0][0]) and conds[0][1] is True) or
+            (conds[0][0][0] == 'cmp' and is_flag(conds[0][0][2]) and
+             conds[0][0][3] == num(0) and
+             (conds[0][0][1], conds[0][1]) in (('!=', True), ('==', False),
+                                               ('>', True))))
+        if plain:
+            raised = True
     check.require(raised, 'E3-failure-propagated', 'Tmatrix._run_tmat',
                   'TmatrixFailure is raised when output %d of ampld (the failure flag) '
                   'is non-zero' % pos, loc,
-                  fail_detail='no raise of TmatrixFailure depends on that output: a '
-                  'solver that gave up hands undefined amplitudes to the field '
-                  'calculation')
+                  fail_detail='no raise of TmatrixFailure is taken for every non-zero '
+                  'value of that output (a test against a list of known codes lets '
+                  'the others through): a solver that gave up hands undefined '
+                  'amplitudes -- zeros from the first failing direction on -- to the '
+                  'field calculation')
 
 
 def angle_guard_agrees(check, prog, root):
